@@ -117,6 +117,8 @@ share: {self.value}"""
             raise SyntaxError("Share not 0-padded properly")
         if share_bit_length < 128:
             raise ValueError("not enough bits")
+        if (len(indices) - 7) * 10 - share_bit_length > 8:
+            raise SyntaxError("Invalid mnemonic length (more than 8 padding bits)")
         return cls(
             share_bit_length,
             id,
